@@ -106,6 +106,26 @@ def framing_mode(cipher, mac):
     return "etm" if m["etm"] else "classic"
 
 
+FAMILIES = ("classic", "etm", "gcm")
+
+
+def suites_by_family():
+    out = {f: [] for f in FAMILIES}
+    for c, m in offered_suites():
+        f = framing_mode(c, m)
+        if f in out:
+            out[f].append((c, m))
+    return out
+
+
+def draw_reverse(rng, k, by_family=None):
+    """Reverse-direction suite whose framing family cycles with k, so that every
+    (inbound family, outbound family) pair occurs."""
+    by_family = by_family or suites_by_family()
+    fams = [f for f in FAMILIES if by_family[f]]
+    return rng.choice(by_family[fams[k % len(fams)]])
+
+
 def ref_mpint(n):
     """RFC 4251 section 5 mpint for n >= 0."""
     if n < 0:
@@ -390,8 +410,12 @@ class Receiver:
         t = self.t
         t.K, t.H = e["K"], e["H"]
         t.kex_engine = _kex_stub(e["hash"])
-        t.local_cipher = t.remote_cipher = e["cipher"]
-        t.local_mac = t.remote_mac = e["mac"]
+        # SSH negotiates per direction: what this peer receives is the sender's suite,
+        # what it sends is the (independently drawn) reverse suite
+        t.remote_cipher, t.remote_mac = e["cipher"], e["mac"]
+        t.local_cipher, t.local_mac = e.get("rev_cipher") or e["cipher"], e.get("rev_mac") or e["mac"]
+        # a peer sends its own NEWKEYS (keys its outbound direction) before it handles the other side's
+        t._activate_outbound()
         # the real handler: _activate_inbound(), clears K / kex_engine, marks the
         # initial kex done on transport and packetizer
         t._parse_newkeys(msg)
@@ -472,7 +496,7 @@ class Bench:
     own)."""
 
     def __init__(self, rng, cipher, mac, comp="none", sender_role="client", strict=False,
-                 hash_name="sha256", accept=None, seq0=0, sid=None, hiccup=None):
+                 hash_name="sha256", accept=None, seq0=0, sid=None, hiccup=None, rev=None):
         self.rng = rng
         self.rec = vtap.Recorder()
         self.klog = []
@@ -490,6 +514,7 @@ class Bench:
         self.spec = dict(sender_role=sender_role, comp=comp, strict=strict, sid=sid, epochs=[], seq0=seq0)
         self.direction = "c2s" if sender_role == "client" else "s2c"
         self.cipher, self.mac, self.hash_name = cipher, mac, hash_name
+        self.rev = tuple(rev) if rev else None
         self.messages = []  # payloads in send order (including NEWKEYS / auth markers)
         if seq0:
             setattr(t.packetizer, "_Packetizer__sequence_number_out", seq0)
@@ -498,24 +523,29 @@ class Bench:
                 raise RuntimeError("bench could not preset the outbound sequence number")
 
     # -- sender actions ---------------------------------------------------
-    def rekey(self, cipher=None, mac=None, hash_name=None, K=None, H=None):
+    def rekey(self, cipher=None, mac=None, hash_name=None, K=None, H=None, rev=None):
+        """rev = (cipher, mac) negotiated for the reverse direction (receiver -> sender);
+        default: the bench's current reverse suite, else the same as the forward one."""
         rng = self.rng
         self.cipher = cipher or self.cipher
         self.mac = mac or self.mac
+        if rev is not None:
+            self.rev = tuple(rev)
+        rc, rm = self.rev if self.rev else (self.cipher, self.mac)
         self.hash_name = hash_name or self.hash_name
         K = K if K is not None else rand_secret(rng)
         hl = hashlib.new(self.hash_name).digest_size
         H = H if H is not None else bytes(rng.getrandbits(8) for _ in range(hl))
         if self.spec["sid"] is None:
             self.spec["sid"] = H  # RFC 4253 7.2: the first exchange hash is the session id
-        e = dict(K=K, H=H, hash=self.hash_name, cipher=self.cipher, mac=self.mac)
+        e = dict(K=K, H=H, hash=self.hash_name, cipher=self.cipher, mac=self.mac, rev_cipher=rc, rev_mac=rm)
         self.spec["epochs"].append(e)
         t = self.t
         t.session_id = self.spec["sid"]
         t.K, t.H = K, H
         t.kex_engine = _kex_stub(self.hash_name)
-        t.local_cipher = t.remote_cipher = self.cipher
-        t.local_mac = t.remote_mac = self.mac
+        t.local_cipher, t.local_mac = self.cipher, self.mac
+        t.remote_cipher, t.remote_mac = rc, rm
         t._activate_outbound()  # real: NEWKEYS under the old keys, then new outbound keys
         self.messages.append(bytes([T_NEWKEYS]))
         # the peer's NEWKEYS "arrives": the real handler keys the sender's own inbound
